@@ -460,7 +460,7 @@ SeqMuts(p, hp, extra) ==                   \* mutations of a sequence of pool in
 (* inclusion claims: [v, leaf, isData, idx, size, root, proof] *)
 InclMuts(c, hp, dp, extra) ==
     {[c EXCEPT !.proof = x[2], !.mut = x[1]] : x \in SeqMuts(c.proof, hp, extra)}
-    \cup {[c EXCEPT !.idx = i, !.mut = "index"] : i \in {c.idx - 1, c.idx + 1, 2147483647} \ {-1}}
+    \cup {[c EXCEPT !.idx = i, !.mut = "index"] : i \in {c.idx - 1, IF c.idx < 2147483000 THEN c.idx + 1 ELSE 0, 2147483646} \ {-1, c.idx}}
     \cup {[c EXCEPT !.size = s, !.mut = "size"] : s \in {c.size - 1, c.size + 1, 2 * c.size, 0}}
     \cup {[c EXCEPT !.root = r, !.mut = "root"] : r \in Cands(hp, c.root, extra)}
     \cup (IF c.isData = 1 THEN {[c EXCEPT !.leaf = l, !.mut = "leaf"] : l \in (1..Len(dp)) \ {c.leaf}}
@@ -614,7 +614,7 @@ Init == job \in Jobs /\ st = "todo" /\ bad = {}
 Decide == /\ st = "todo"
           /\ LET r == Result(job) IN
              /\ bad' = r.bad
-             /\ (job.k \in {"incl", "incld", "cons", "prove"} => Emit("POOL", r.pool))
+             /\ ((job.k = "incl" /\ job.m = 0) => Emit("POOL", r.pool))      \* the pools depend on n only
              /\ \A row \in r.rows : Emit("ROW", [job |-> job, row |-> row])
           /\ st' = "done"
           /\ UNCHANGED job
